@@ -115,7 +115,61 @@ def set_attr(eng, st, base, attr, value, node):
     raise ContractError("attribute %s.%s not in schema" % (cls, attr))
 
 
+def hoist_comp(eng, value):
+    """[elt for t in it if c] with an allocating element or a filter, used directly as the value of an
+    assignment/return: rewritten into  _compN = []; for t in it: (if c:) _compN.append(elt)  and treated as
+    a loop with the contract given under ghost['comps'][N] (inv / modifies / kind)."""
+    f = eng.frame
+    if not isinstance(value, ast.ListComp):
+        return None
+    ordn = f.comp_ord.get(id(value))
+    cc = (f.contract.ghost.get('comps') or {}).get(ordn)
+    if cc is None:
+        return None
+    if len(value.generators) != 1:
+        raise Unsupported("nested comprehension")
+    gen = value.generators[0]
+    name = '_comp%d' % ordn
+    init = ast.Assign(targets=[ast.Name(id=name, ctx=ast.Store())], value=ast.List(elts=[], ctx=ast.Load()))
+    app = ast.Expr(value=ast.Call(func=ast.Attribute(value=ast.Name(id=name, ctx=ast.Load()), attr='append', ctx=ast.Load()),
+                                  args=[value.elt], keywords=[]))
+    body = [app]
+    for cond in reversed(gen.ifs):
+        body = [ast.If(test=cond, body=body, orelse=[])]
+    loop = ast.For(target=gen.target, iter=gen.iter, body=body, orelse=[])
+    for n in (init, loop):
+        ast.copy_location(n, value)
+        ast.fix_missing_locations(n)
+    key = 'c%d' % ordn
+    f.loop_ord[id(loop)] = key
+    lc = dict(cc)
+    lc.setdefault('modifies', [name])
+    f.contract.loops[key] = lc
+    f.contract.ghost['kind:' + name] = cc['kind']
+    return [init, loop], ast.copy_location(ast.Name(id=name, ctx=ast.Load()), value)
+
+
+def with_hoisting(eng, node, st, attr, cont):
+    h = hoist_comp(eng, getattr(node, attr))
+    if h is None:
+        return None
+    pre, newval = h
+    outs = []
+    for (o, s) in exec_block(eng, pre, st):
+        if o[0] != 'normal':
+            outs.append((o, s))
+            continue
+        clone = type(node)(**{k: getattr(node, k) for k in node._fields})
+        setattr(clone, attr, newval)
+        ast.copy_location(clone, node)
+        outs += cont(eng, clone, s)
+    return outs
+
+
 def st_Assign(eng, node, st):
+    h = with_hoisting(eng, node, st, 'value', st_Assign)
+    if h is not None:
+        return h
     # element-kind hint for empty list literals comes from the contract's `locals`
     hint = None
     if len(node.targets) == 1 and isinstance(node.targets[0], ast.Name):
@@ -156,6 +210,10 @@ def st_AugAssign(eng, node, st):
 
 
 def st_Return(eng, node, st):
+    if node.value is not None:
+        h = with_hoisting(eng, node, st, 'value', st_Return)
+        if h is not None:
+            return h
     v = eng.ev(node.value, st) if node.value is not None else NONE
     outs = []
     flush_raises(eng, st, outs)
@@ -420,8 +478,9 @@ def run_loop(eng, node, st, ordn, lc, idxname, d, guard_fn, bind_fn, step_fn, gh
     entry_alloc = st.heap.alloc
     mods = calls.eval_assign_targets(eng, lc.get('modifies', []), st.env, st)
     mods_frame = []
+    from .verify import frame_entry
     for m in mods:
-        mods_frame.append(('ref', m[1].t) if m[0] == 'ref' else ('field', m[1].t, calls.target_key(eng, m)))
+        mods_frame.append(frame_entry(eng, st, m))
     # 2. arbitrary iteration
     head = st.copy()
     names = assigned_names(node.body) | set((lc.get('ghost') or {}).keys())
